@@ -89,6 +89,10 @@ class ConfigList(ComposedNode, list):
     def get_child(self, index, default=None):
         return self._get(index, default=default, raise_ex=False)
 
+    @namespace('ayns')
+    def rename_child(self, old_name, new_name):
+        raise TypeError('children of a list are named after their positions and cannot be renamed')
+
     def __contains__(self, value):
         return list.__contains__(self, value)
 
